@@ -522,11 +522,16 @@ def run(ctx):
                     "everything else must pass" % (out[0:2],))
     f_fp = ctx.anchor("Fragment.validate_positions",
                       F.find_method("validate_positions"))
+    # (f_beg / f_end are coordinates on the external sequence: a `$` there
+    # says nothing about the segment and is never compared with its length)
+    fpairs = [(pos(0, False), pos(4, False)), (pos(10, False), pos(14, True)),
+              (pos(7, True), pos(7, True)), (pos(2, True), pos(3, True))]
     for seq in ("*", "ACGTACG"):
-        for b, e_ in itertools.product(plist, repeat=2):
+        for b, e_, (fb, fe) in itertools.product(plist, plist, fpairs):
             ctx.instance(R)
             fr = Abs(F, label="frag", _gfa=Abs(None, label="gfa"),
-                     sid=segm("a", seq), s_beg=b, s_end=e_)
+                     sid=segm("a", seq), s_beg=b, s_end=e_, f_beg=fb,
+                     f_end=fe)
             fr.attrs["_data"] = fr.attrs
             out = eval_function(repo, f_fp, [fr], hooks=hooks)
             bad = seq != "*" and any(isinstance(p, Abs) and
@@ -536,8 +541,10 @@ def run(ctx):
                 "InconsistencyError")) if bad else out[0] == "return"
             ctx.oblige(ok)
             if not ok:
-                ctx.violation(R, f_fp.short, "seq=%s,s_beg=%s,s_end=%s" % (
-                    seq, fmtp(b), fmtp(e_)), "outcome %r" % (out[0:2],))
+                ctx.violation(R, f_fp.short,
+                              "seq=%s,s_beg=%s,s_end=%s,f_beg=%s,f_end=%s" % (
+                                  seq, fmtp(b), fmtp(e_), fmtp(fb), fmtp(fe)),
+                              "outcome %r" % (out[0:2],))
     ctx.exhaustive[R] = True
 
     # ------------------------------------------------------------------
@@ -626,6 +633,8 @@ def run(ctx):
 
     # ------------------------------------------------------------------
     rule_custom_record_tag_scan(ctx, "C04.custom_record_tag_scan")
+    from .c13 import rule_segment_tag_scan
+    rule_segment_tag_scan(ctx, "C04.segment_tag_scan")
 
     # ------------------------------------------------------------------
     R = "C04.document_validation"
